@@ -276,9 +276,11 @@ class HyperRAMInterface(Elaboratable):
                 ]
                 m.d.comb += self.write_ready.eq(1),
 
-                # If we just finished a register write, we're done -- there's no need for recovery.
+                # If we just finished a register write, we're done. Pass through RECOVERY so that
+                # CS is released before a new transaction can start (start_transfer may still be
+                # high: it is allowed to last up to 8 cycles, a register write takes 7).
                 with m.If(is_register):
-                    m.next = 'IDLE'
+                    m.next = 'RECOVERY'
 
                 with m.Elif(self.final_word):
                     m.next = 'RECOVERY'
